@@ -369,13 +369,15 @@ pub fn gen_value(r: &mut Rng, id: usize, hostile: bool) -> Val {
             Val::Combo((0..n).map(|_| gen_color(r, hostile)).collect())
         }
         _ => {
-            let n = r.range(0, 3);
+            let n = r.range(0, 5);
             let mut l: Vec<(String, [u8; 4])> = vec![];
             for _ in 0..n {
                 let name = if hostile || r.chance(1, 3) {
                     gen_text(r, hostile)
                 } else {
-                    r.pick(&["SliderBorder", "SliderTrackOverride", "Custom", "my colour", "日本", "x,y", "[General]", "a-b", "combo1", "1"]).to_string()
+                    // names that differ only in letter case, or only in a non-ASCII letter, are distinct
+                    r.pick(&["SliderBorder", "SliderTrackOverride", "Custom", "my colour", "日本", "x,y", "[General]", "a-b", "combo1", "1",
+                             "sliderborder", "SLIDERBORDER", "custom", "My Colour", "A-B", "é", "É", "ｘ"]).to_string()
                 };
                 l.push((name, gen_color(r, hostile)));
             }
